@@ -29,7 +29,12 @@ def main():
             import traceback
             from .workload import exc_key
             tb = traceback.extract_tb(e.__traceback__)
-            if tb and tb[-1].filename.startswith(env.SRC):
+            import sysconfig
+            stdlib = (sysconfig.get_paths()["stdlib"], sysconfig.get_paths()["platstdlib"])
+            inner = [fr for fr in tb if not fr.filename.startswith(stdlib) and not fr.filename.startswith("<")]
+            # (frames of the standard library - enum lookups, struct, codecs - are skipped: the innermost frame that
+            # is not stdlib decides whose exception it is)
+            if inner and inner[-1].filename.startswith(env.SRC):
                 res.violation(f"{mod.PROPERTY}:unexpected-exception:{exc_key(e)}",
                               f"workload operation raised {e!r} inside rv: " + "".join(traceback.format_tb(e.__traceback__)[-3:])[-900:],
                               {"shard": spec})
